@@ -27,7 +27,7 @@ def families(tier):
     deep = tier == 'thorough'
     out = []
     cfg = dict(bound=4 if deep else 2, cap=30000 if deep else 1200, window=0.25, max_targets=2)
-    types = ['ValueError', 'Custom', 'RuntimeError', 'KeyError', 'TimeoutError', 'Chained']
+    types = ['ValueError', 'Custom', 'RuntimeError', 'KeyError', 'TimeoutError', 'Chained', 'CancelledError']
     for pos, kind, typ, place, par in itertools.product((0, 1, 2), KINDS, types, ['root', 'child_aw', 'child_ff', 'fwd_bus'], (False, True)):
         if not deep:
             if typ in ('RuntimeError', 'KeyError') and (kind != 'raise' or place != 'root'):
@@ -36,6 +36,8 @@ def families(tier):
                 continue
             if typ == 'Custom' and kind.startswith('sync') and place != 'root':
                 continue
+        if typ == 'CancelledError' and 'ret_exc' in kind:
+            continue
         hk, mk = KINDS[kind]
         trio = []
         ebus = 'B' if place == 'fwd_bus' else 'A'
